@@ -4,20 +4,21 @@ package main
 import "verifharness/common"
 
 var units = map[string]common.UnitFunc{
-	"c04rbc":    unitC04rbc,
-	"byzrbc":    unitByzRbc,
-	"c04orch":   unitC04orch,
-	"byzorch":   unitByzOrch,
-	"c14ctl":    unitC14ctl,
-	"c14stress": unitC14stress,
-	"c15":       unitC15,
-	"c06":       unitC06,
-	"c12":       unitC12,
-	"c07honest": unitC07honest,
-	"c07byz":    unitC07byz,
-	"c13sess":   unitC13sess,
-	"c12silent": unitC12silent,
-	"c15ctl":    unitC15ctl,
+	"c04rbc":      unitC04rbc,
+	"byzrbc":      unitByzRbc,
+	"c04orch":     unitC04orch,
+	"byzorch":     unitByzOrch,
+	"c14ctl":      unitC14ctl,
+	"c14stress":   unitC14stress,
+	"c15":         unitC15,
+	"c06":         unitC06,
+	"c12":         unitC12,
+	"c11scripted": unitC11scripted,
+	"c07honest":   unitC07honest,
+	"c07byz":      unitC07byz,
+	"c13sess":     unitC13sess,
+	"c12silent":   unitC12silent,
+	"c15ctl":      unitC15ctl,
 }
 
 func main() { common.ChildMain(units) }
